@@ -218,4 +218,30 @@ fn run(ctx: &mut Ctx) {
         let text = ast_program_text(&mut rng, &cfg);
         ast_case(ctx, &text);
     }
+    // self-audit streams: (a) SEQUENCES on one Program object (add half, schedule, add the rest, schedule twice:
+    // `used_qubits` is maintained incrementally and matters for bare RESET); (b) large shapes (> 64 instructions,
+    // > 32 frames / regions per instruction); (c) API-only placeholder qubits / targets (projected stream only)
+    let mut rng = ctx.rng(224);
+    let n_staged = if quick { 300 } else { 20_000 };
+    for i in 0..n_staged {
+        let cfg = ProgCfg { nframes: 3 + (i % 3) as usize, nreg: 2, max_len: 10, rf_pct: 70, cf_pct: 8, bad_permille: 0 };
+        let mut text = ast_program_text(&mut rng, &cfg);
+        text.push_str(if i % 2 == 0 { "RESET\nFENCE 1\nDELAY 2 1.0\n" } else { "FENCE 2\nRESET\n" });
+        let instructions = parsed_instructions(&text);
+        let cut = rng.below(instructions.len() as u64 + 1) as usize;
+        staged_ast_cases(ctx, &instructions, cut);
+    }
+    for text in large_programs(&mut rng) {
+        let program = parse(&text);
+        let input = project_program(&program, &DefaultHandler);
+        ctx.case(tagged("corpus", vec![input]), || run_from_program(&program, &DefaultHandler));
+        let instructions = parsed_instructions(&text);
+        let (program, parts) = ast_parts(&instructions);
+        ctx.case(tagged("ast", parts), || run_from_program(&program, &DefaultHandler));
+    }
+    for program in placeholder_programs() {
+        let input = project_program(&program, &DefaultHandler);
+        ctx.case(tagged("corpus", vec![input]), || run_from_program(&program, &DefaultHandler));
+    }
+
 }
